@@ -97,8 +97,18 @@ type rigOut struct {
 	errRet  bool
 }
 
+// rigAppRTCP: one RTCP batch the application wrote through the bound RTCP writer.
+type rigAppRTCP struct {
+	before, after []byte // the batch marshalled before the call and again after it returned
+	n             int
+	err           error
+	enter, ret    int
+	gid           int
+}
+
 type rigRTCPOut struct {
-	iter int // step at which the writing library goroutine last woke from one of its own waits
+	iter int  // step at which the writing library goroutine last woke from one of its own waits
+	app  bool // written on an application goroutine (the application's own RTCP)
 	gid  int
 	step int
 	at   time.Duration
@@ -155,6 +165,7 @@ type Rig struct {
 
 	Out         []*rigOut
 	RTCPOut     []*rigRTCPOut
+	AppRTCP     []*rigAppRTCP
 	Writes      []*rigWrite
 	Reads       []*rigRead
 	rtcpN       int
@@ -266,6 +277,25 @@ func (rg *Rig) buildKind(kind string, seed int64) (interceptor.Factory, error) {
 			}), packetdump.RTCPBinaryFormatter(func(pkt rtcp.Packet, _ interceptor.Attributes) ([]byte, error) {
 				// read-only rendering (rtcp's Marshal writes into some packet types)
 				return []byte(fmt.Sprintf("%T %v;", pkt, pkt.DestinationSSRC())), nil
+			}))
+		}
+		// selective dumps: the filters decide what is logged, never what is forwarded
+		if chance(r, 300) {
+			opts = append(opts, packetdump.RTPFilter(func(p *rtp.Packet) bool { return p.SequenceNumber%2 == 0 }))
+		}
+		if chance(r, 300) {
+			opts = append(opts, packetdump.RTCPFilter(func(ps []rtcp.Packet) bool { return len(ps) > 1 }))
+		}
+		if chance(r, 400) {
+			want := pick(r, 0, 1, 2)
+			opts = append(opts, packetdump.RTCPPerPacketFilter(func(p rtcp.Packet) bool {
+				switch p.(type) {
+				case *rtcp.PictureLossIndication:
+					return want == 0
+				case *rtcp.ReceiverReport, *rtcp.SenderReport:
+					return want == 1
+				}
+				return want == 2
 			}))
 		}
 		if kind == "dump_send" {
@@ -393,6 +423,19 @@ func (rg *Rig) logWrite(w *rigWrite, enter bool) {
 }
 
 //go:norace
+func (rg *Rig) logAppRTCP(a *rigAppRTCP, enter bool) {
+	if enter {
+		a.enter, a.ret = rg.e.S.Step(), 1<<60
+		if g := simrt.Cur(); g != nil {
+			a.gid = g.ID
+		}
+		rg.AppRTCP = append(rg.AppRTCP, a)
+	} else {
+		a.ret = rg.e.S.Step()
+	}
+}
+
+//go:norace
 func (rg *Rig) logRead(r *rigRead, enter bool) {
 	if enter {
 		r.enter, r.ret = rg.e.S.Step(), 1<<60
@@ -443,7 +486,7 @@ func (rg *Rig) bindRTCPWriter() {
 		g := simrt.Cur()
 		o := &rigRTCPOut{pkts: pkts}
 		if g != nil {
-			o.gid = g.ID
+			o.gid, o.app = g.ID, g.App
 		}
 		if raw, err := rtcp.Marshal(pkts); err == nil {
 			o.raw = raw
@@ -625,6 +668,12 @@ func (rg *Rig) rtcpFor(o RigOp) []byte {
 	case "compound":
 		for k := 2 + r.Intn(3); k > 0; k-- {
 			one(pick(r, "nack", "sr", "rr", "pli", "fir", "xr", "remb"))
+		}
+	case "compound_w":
+		// what an application writes itself (no extended reports: pion/rtcp's Marshal writes into them, so the
+		// transport's marshalling would race with any asynchronous reader of the same packet objects)
+		for k := 2 + r.Intn(3); k > 0; k-- {
+			one(pick(r, "nack", "rr", "pli", "fir", "remb"))
 		}
 	default:
 		one(o.RK)
@@ -815,8 +864,13 @@ func (rg *Rig) Run() {
 			case "aw":
 				// the application writes RTCP through the bound writer
 				simrt.SleepUntil(us(o.AtUs))
-				if pk, err := rtcp.Unmarshal(rg.rtcpFor(RigOp{RK: pick(rand.New(rand.NewSource(o.HS)), "pli", "fir", "rr", "nack"), HS: o.HS})); err == nil {
-					rg.rtcpW.Write(pk, interceptor.Attributes{})
+				if pk, err := rtcp.Unmarshal(rg.rtcpFor(RigOp{RK: pick(rand.New(rand.NewSource(o.HS)), "pli", "fir", "rr", "nack", "compound_w", "compound_w"), HS: o.HS})); err == nil {
+					a := &rigAppRTCP{}
+					a.before, _ = rtcp.Marshal(pk)
+					rg.logAppRTCP(a, true)
+					a.n, a.err = rg.rtcpW.Write(pk, interceptor.Attributes{})
+					a.after, _ = rtcp.Marshal(pk)
+					rg.logAppRTCP(a, false)
 				}
 			}
 		}
